@@ -124,6 +124,14 @@ func (p *PostAggregationProcessor) ProcessResults(results []map[string]any) ([]m
 				continue
 			}
 
+			// A template that is a single placeholder (parameterized aggregate such as
+			// deduplicate(col, true)) takes the aggregate's value as is, so a list result
+			// is not unwrapped like a value computed by the expression engine
+			if len(expr.RequiredAggFields) == 1 && strings.TrimSpace(expr.Expression) == expr.RequiredAggFields[0] {
+				result[expr.OutputField] = result[expr.RequiredAggFields[0]]
+				continue
+			}
+
 			// SQL arithmetic over a NULL aggregate is NULL; the expression engine would
 			// otherwise turn "NULL + 30" into the string "30"
 			if expr.arithmeticOnly && p.hasNilField(result, expr.RequiredAggFields) {
@@ -467,6 +475,10 @@ func (ega *EnhancedGroupAggregator) AddPostAggregationExpression(outputField, or
 			// 1. It requires more than 1 parameter (minArgs > 1), OR
 			// 2. It has optional parameters that can configure its behavior (maxArgs > minArgs && minArgs >= 1)
 			isParameterized = minArgs > 1 || (maxArgs > minArgs && minArgs >= 1)
+			// 3. It takes its extra arguments through Init (e.g. deduplicate(col, true))
+			if _, ok := fn.(functions.ParameterizedFunction); ok {
+				isParameterized = true
+			}
 		}
 
 		// Check if field already exists in aggregationFields to avoid duplicates
